@@ -4,7 +4,7 @@
 
 use serde::{Deserialize, Serialize};
 
-use crate::explore::{in_task_poll, Act, Consumer, Ev, GRef, Ret, Runner, Stepper};
+use crate::explore::{in_task_poll, in_task_poll_burn, Act, Consumer, Ev, GRef, Ret, Runner, Stepper};
 use crate::gen::RunCfg;
 use crate::model::{build_graph, GraphFacts, GraphSpec};
 use crate::oracle::{check_run, RunStats, Violation};
@@ -145,7 +145,19 @@ pub fn drive(s: &mut dyn Stepper, schedule: Schedule, coop: bool) -> bool {
                             _ => 1 + t.below(400),
                         }
                     };
-                    in_task_poll(|| {
+                    let burn = if k >= max_actions {
+                        0
+                    } else {
+                        match t.below(4) {
+                            0 | 1 => 0,
+                            2 => t.below(128),
+                            _ => 96 + t.below(32),
+                        }
+                    };
+                    if burn > 0 {
+                        s.note_burn(burn);
+                    }
+                    in_task_poll_burn(burn, || {
                         s.set_deferred(true);
                         for _ in 0..wsize {
                             if s.done() || k >= HARD_ACTION_CAP {
@@ -189,7 +201,7 @@ pub fn drive(s: &mut dyn Stepper, schedule: Schedule, coop: bool) -> bool {
 fn replay_acts(s: &mut dyn Stepper, acts: &[Act], coop: bool, strict: bool) -> bool {
     if !coop {
         for a in acts {
-            if *a == Act::Yield {
+            if matches!(a, Act::Yield | Act::Burn(_)) {
                 continue;
             }
             if s.done() {
@@ -209,7 +221,15 @@ fn replay_acts(s: &mut dyn Stepper, acts: &[Act], coop: bool, strict: bool) -> b
             }
             break;
         }
-        in_task_poll(|| {
+        let burn = match window.first() {
+            Some(Act::Burn(b)) => *b,
+            _ => 0,
+        };
+        if burn > 0 {
+            s.note_burn(burn);
+        }
+        let window: &[Act] = if burn > 0 { &window[1..] } else { window };
+        in_task_poll_burn(burn, || {
             s.set_deferred(true);
             for a in window {
                 if s.done() || !s.apply(*a) {
